@@ -200,6 +200,7 @@ def run_calls(case):
             warn_ctx = warnings.catch_warnings()
             warn_ctx.__enter__()
             warnings.simplefilter("error")
+            warnings.simplefilter("ignore", ResourceWarning)
         try:
             for spec in case["calls"]:
                 rec = {"start": loop.ticks, "writes": [], "spec": spec}
